@@ -366,7 +366,7 @@ fn gen_side(r: &mut Rng, allow_whole: bool, writes: bool) -> Side {
             wops.push(match r.below(10) {
                 0 => WOp::Sleep(r.range(1, 7)),
                 1 => WOp::Write(0),
-                2..=5 => WOp::Write(r.pick_copy(&[1usize, 2, 7, 64, 1000])),
+                2..=5 => WOp::Write(if r.chance(0.04) { r.pick_copy(&[65_537usize, 100_000, 200_001]) } else { r.pick_copy(&[1usize, 2, 7, 64, 1000]) }),
                 6..=7 => WOp::WriteAll(r.pick_copy(&[1usize, 7, 64, 1000])),
                 _ => WOp::Try(r.pick_copy(&[1usize, 2, 7, 64])),
             });
@@ -412,6 +412,25 @@ fn gen(seed: u64) -> Scn {
         client.mode = Mode::Whole;
     } else if whole_side == 1 {
         server.mode = Mode::Whole;
+    }
+    // very large single writes: keep one per side and let the peer read them in
+    // large chunks (a 1-byte reader over 200 kB only costs time)
+    for turn in 0..2 {
+        let (w, rd) = if turn == 0 { (&mut client, &mut server) } else { (&mut server, &mut client) };
+        let mut seen_big = false;
+        for op in w.wops.iter_mut() {
+            if let WOp::Write(n) = op {
+                if *n > 65_536 {
+                    if seen_big {
+                        *n = 1000;
+                    }
+                    seen_big = true;
+                }
+            }
+        }
+        if seen_big {
+            rd.rops = vec![ROp::Read(65_536), ROp::Peek(64), ROp::Read(4096)];
+        }
     }
     let mut fault = Fault::None;
     if peer == Peer::Remote {
@@ -473,7 +492,8 @@ struct Exec {
 }
 
 fn execute(s: &Scn) -> Exec {
-    rec::with_recorder(true, |h| {
+    let big = s.client.wops.iter().chain(s.server.wops.iter()).any(|o| matches!(o, WOp::Write(n) if *n > 65_536));
+    rec::with_recorder(!big, |h| {
         let log: Log<Ev> = Log::new();
         rec::set_step(0);
         // virtual-time bound, derived from the scripts with a 4x margin: a
@@ -637,6 +657,9 @@ fn check(s: &Scn, ex: &Exec, out: &mut ScenarioOut, tag: &str) {
                 Ev::WAccepted { dir: d, n } if *d == dir => {
                     accepted += *n as u64;
                     out.count("writes_accepted", 1);
+                    if *n > 65_536 {
+                        out.count("writes_larger_than_64k", 1);
+                    }
                     if *n == 0 {
                         out.count("zero_length_writes", 1);
                     }
@@ -1044,12 +1067,12 @@ pub fn run(ctx: &Ctx) -> ! {
 fn fin() -> Finish<'static> {
     Finish {
         level: "exploration",
-        rule: "random scenarios: write chunkings {0,1,2,7,64,1000} via write/write_all/try_write+writable, read buffers {0,1,3,64,4096} with peeks, both directions, into_split / tokio::io::split / whole stream, tcp_capacity {1,2,3,8,64}, tick {1,5 ms}, latency ranges with min<max, remote / same-host / 127.0.0.1 peers, IPv4/IPv6, mid-stream hold/release, partition/repair and abortive drops (safety half only for the last two); plus every delivery permutation of the held data segments+FIN of a transfer (k<=4 quick, k<=6 thorough) x {capacity = #segments with idle or eager reader, larger capacity} x both directions via Sim::links; non-trivial = a segment overtook another on the wire, or a writer saw WouldBlock, or a non-identity permutation; distinct = digest of the full API history",
+        rule: "random scenarios: write chunkings {0,1,2,7,64,1000, rarely 65537/100000/200001} via write/write_all/try_write+writable, read buffers {0,1,3,64,4096} with peeks, both directions, into_split / tokio::io::split / whole stream, tcp_capacity {1,2,3,8,64}, tick {1,5 ms}, latency ranges with min<max, remote / same-host / 127.0.0.1 peers, IPv4/IPv6, mid-stream hold/release, partition/repair and abortive drops (safety half only for the last two); plus every delivery permutation of the held data segments+FIN of a transfer (k<=4 quick, k<=6 thorough) x {capacity = #segments with idle or eager reader, larger capacity} x both directions via Sim::links; non-trivial = a segment overtook another on the wire, or a writer saw WouldBlock, or a non-identity permutation; distinct = digest of the full API history",
         assumptions: vec![
             "pending SYNs never exceed tcp_capacity (documented panic)".into(),
             "delivery half only asserted for graceful closes on healthy (or held-then-released) links".into(),
         ],
         min_distinct: 100,
-        required_counters: vec!["reordered_permutations", "fin_arrives_while_queue_full_cases", "segments_overtaken_directions", "wouldblock_observed", "peeks", "empty_buffer_reads", "eof_observed", "zero_length_writes", "ipv6_scenarios", "readers_stopped_before_eof"],
+        required_counters: vec!["reordered_permutations", "fin_arrives_while_queue_full_cases", "segments_overtaken_directions", "wouldblock_observed", "peeks", "empty_buffer_reads", "eof_observed", "zero_length_writes", "ipv6_scenarios", "readers_stopped_before_eof", "writes_larger_than_64k"],
     }
 }
